@@ -40,7 +40,7 @@ func c19GenFile(r *Rng, idx int) c19File {
 	var tables []string // global tables that can get members
 	var ltables []string
 	for i := 0; i < nStat; i++ {
-		switch r.Intn(16) {
+		switch r.Intn(17) {
 		case 0:
 			v := nm("Loc")
 			sb.WriteString(fmt.Sprintf("local %s = %d\n", v, i))
@@ -109,6 +109,18 @@ func c19GenFile(r *Rng, idx int) c19File {
 			v, g := nm("inner"), nm("InnerGlob")
 			sb.WriteString(fmt.Sprintf("do\n  local %s = 1\n  %s = %s\nend\n", v, g, v))
 			wants = append(wants, want{g, "global-assigned-in-block", true})
+		case 16:
+			// a function member of a table that is local to a block
+			tb, fn := nm("BlkTab"), nm("blkfn")
+			switch r.Intn(3) {
+			case 0:
+				sb.WriteString(fmt.Sprintf("do\n  local %s = {}\n  function %s.%s(a)\n    return a\n  end\n  print(%s)\nend\n", tb, tb, fn, tb))
+			case 1:
+				sb.WriteString(fmt.Sprintf("if true then\n  local %s = { %s = function(a) return a end }\n  print(%s)\nend\n", tb, fn, tb))
+			default:
+				sb.WriteString(fmt.Sprintf("local function %s()\n  local %s = {}\n  function %s.%s(a)\n    return a\n  end\n  return %s\nend\nprint(%s)\n", nm("mk"), tb, tb, fn, tb, fmt.Sprintf("%smk%d", pre, n)))
+			}
+			wants = append(wants, want{fn, "local-function-nested-in-blocks", true})
 		case 14, 15:
 			// a function two or three scope levels below the chunk, inside blocks that are followed by other blocks
 			v := nm("DeepFn")
